@@ -686,9 +686,6 @@ theorem handle_view (env : Env) (s : State) (hs : UsersNodup s) (m : Msg) (hm : 
   | peerInfo c d pic a b f pm => exact hv_peerInfo env s c d pic a b f pm hm
   | peerSearch u f a b => exact hv_peerSearch env s u f a b
 
-theorem inv_withRoom' {s : State} (r : Nat) (p : Bool) (f : Room → Room)
-    (hf : ∀ x, x.users.Nodup → (f x).users.Nodup) (hs : UsersNodup s) : UsersNodup (s.withRoom r p f) := inv_withRoom hs r p f hf
-
 theorem inv_touchFold {s : State} (us : List Nat) (hs : UsersNodup s) : UsersNodup (us.foldl (fun s u => s.touchUser u) s) :=
   inv_of_rooms hs (rooms_touchFold _ _)
 theorem inv_touchFold' {s : State} (ts : List (Nat × Nat)) (hs : UsersNodup s) : UsersNodup (ts.foldl (fun s p => s.touchUser p.1) s) :=
